@@ -205,7 +205,9 @@ FAMILIES = {
     "nested_ctor_dag": (nested_ctor_dag, True),
 }
 # families whose interesting sizes differ from the common sweep
-SIZES = {"contains_dag": {"quick": [4, 32], "thorough": [4, 16, 32, 48]}, "nested_ctor_dag": {"quick": [8, 12], "thorough": [8, 12, 14]}}
+SIZES = {"contains_dag": {"quick": [4, 32], "thorough": [4, 16, 32, 48]}, "nested_ctor_dag": {"quick": [8, 12], "thorough": [8, 12, 14]},
+         "mutual": {"quick": [2, 6, 10], "thorough": [2, 4, 6, 10, 12]}}
 # growth families: the number of abstract states (rows of s2space_p3) at the largest size may be at most GROWTH_FACTOR x the number at the smallest one
 # (sizes 8 -> 12: a cubic would give (12/8)^3 = 3.4; doubling per level gives 16)
-GROWTH = {"nested_ctor_dag": 8}
+GROWTH = {"nested_ctor_dag": 8, "mutual": 6}       # mutual: sizes 6 -> 10 (12): a cubic gives 4.6 (8)
+GROWTH_FROM = {"mutual": 6}       # the smallest size that takes part in the growth comparison
